@@ -6,6 +6,7 @@ import FeedVerif.Model.CssDriver
 import FeedVerif.Model.DateDriver
 import FeedVerif.Model.EncDriver
 import FeedVerif.Model.DoctypeDriver
+import FeedVerif.Model.SanDriver
 /-!
 Model driver: one operation per input line `<model> <op> <fields…>`, one canonical output line per
 operation.  Run with `lake env lean --run Main.lean`.
@@ -15,6 +16,7 @@ open FeedVerif
 structure DState where
   dict : Dict.Store := []
   base : Base.St := ⟨"", none, [], []⟩
+  san : San.DSt := {}
 
 def stepLine (st : DState) (line : String) : DState × String :=
   match (line.trimAscii.toString.splitOn " ").filter (· ≠ "") with
@@ -25,6 +27,7 @@ def stepLine (st : DState) (line : String) : DState × String :=
   | "date" :: rest => (st, Date.driverStep rest)
   | "enc" :: rest => (st, Enc.driverStep rest)
   | "doctype" :: rest => (st, Doctype.driverStep rest)
+  | "san" :: rest => let (s, o) := San.driverStep st.san rest; ({ st with san := s }, o)
   | "base" :: rest => let (s, o) := Base.driverStep st.base rest; ({ st with base := s }, o)
   | _ => (st, "bad-model")
 
